@@ -101,8 +101,10 @@ func (x *exec) soloRun(text string, d, c int, api string, limit int) Outcome {
 	}
 	var o Outcome
 	switch api {
+	case "pkgselect":
+		o = pkgSelect(text, x.nav(d, c))
 	case "select":
-		o = drain(ex.Select(x.nav(d, c)), limit)
+		o = selectAll(ex, x.nav(d, c), limit)
 	default:
 		var it *xpath.NodeIterator
 		o, it = evaluate(ex, x.nav(d, c))
@@ -292,7 +294,12 @@ func (x *exec) histC04() {
 				interleaved++
 			}
 			if st.Op == "select" {
-				h := &handle{it: ex.Select(x.nav(d, st.C)), e: ei, d: d, c: st.C, api: "select", want: want}
+				h := &handle{it: selectIter(ex, x.nav(d, st.C)), e: ei, d: d, c: st.C, api: "select", want: want}
+				if h.it == nil {
+					// Select itself panicked: compare that outcome, open no handle
+					x.compareOutcome(i, "Select", text, selectAll(ex, x.nav(d, st.C), 0), want, false)
+					continue
+				}
 				hs = append(hs, h)
 				x.tracef("step %d select e%d d%d c%d", i, ei, d, st.C)
 				if crash > 0 {
@@ -480,7 +487,7 @@ func (x *exec) probe(step, ei, d, c int) {
 	ex := x.shared[ei]
 	wantS := x.solo(text, d, c, "select", 0)
 	e := x.begin(budgetFor(wantS), 0)
-	got := drain(ex.Select(x.nav(d, c)), 0)
+	got := selectAll(ex, x.nav(d, c), 0)
 	x.end(e)
 	x.compareOutcome(step, "Select", text, got, wantS, false)
 	if x.stop {
